@@ -35,7 +35,7 @@ ASSUMPTIONS = [
 ]
 BOUNDS = {
     "quick": "n<=5 all perms x all masks x grid; end-to-end n<=3",
-    "thorough": "n<=7 all perms x all masks x grid; end-to-end n<=5",
+    "thorough": "n<=6 all flavours, n=7 for four flavours: all perms x all masks x grid; end-to-end n<=5",
 }
 
 FLAVOURS = ["obj1", "obj2", "obj2_single", "obj2_neg", "obj2_negsum", "con_upper", "con_lower", "con_eq", "con_two_sided"]
@@ -286,6 +286,8 @@ def shards(tier: str, seed: int) -> list[dict[str, Any]]:
             masks = list(range(2**n))
             if flavour == "con_two_sided" and n > 3:
                 continue
+            if n == 7 and flavour not in ("obj1", "obj2_neg", "con_lower", "con_eq"):
+                continue  # n=7 (5040 orderings x 128 masks x grid) for one flavour per ranking rule
             chunk = max(1, len(masks) // (1 if n < 5 else (4 if n < 7 else 32)))
             for group in core.chunked(masks, chunk):
                 out.append({"kind": "direct", "flavour": flavour, "n": n, "masks": group, "seed": seed})
